@@ -1117,6 +1117,17 @@ class Model:
                 continue
             if modfunc is None and uses.get(f.attr, 0) > 1 and self._orig_size.get(h.qualname, 99) > MAX_SHARED_HELPER_STMTS:
                 continue    # a larger shared helper is a unit of its own (rules find it by role)
+            # hygiene: a local of the helper that is also a name of the caller which is read outside the call statement would be
+            # clobbered by the expansion - such a helper stays a call
+            hparams = {a.arg for a in h.node.args.posonlyargs + h.node.args.args + h.node.args.kwonlyargs}
+            hlocals = {n.id for x in body for n in ast.walk(x) if isinstance(n, ast.Name) and isinstance(n.ctx, (ast.Store, ast.Del))} - hparams
+            site_stmt = st.ifnode if isinstance(st, _IfCall) else st
+            inside = {id(n) for n in ast.walk(site_stmt)} if not isinstance(site_stmt, (ast.If, ast.For)) else \
+                {id(n) for n in ast.walk(site_stmt.test if isinstance(site_stmt, ast.If) else site_stmt.iter)}
+            own_targets = {n.id for t in getattr(site_stmt, 'targets', []) for n in ast.walk(t) if isinstance(n, ast.Name)}
+            if any(isinstance(n, ast.Name) and n.id in hlocals and n.id not in own_targets and isinstance(n.ctx, ast.Load) and id(n) not in inside
+                   for n in walk_local(fi.node)) and not os.environ.get('VERIF_NO_HYGIENE'):
+                continue
             rets = [n for n in walk_local(h.node) if isinstance(n, ast.Return)]
             ylds = [n for n in walk_local(h.node) if isinstance(n, (ast.Yield, ast.YieldFrom))]
             if isinstance(st, _IfCall) and st.nested is not None and len(body) == 1 and isinstance(body[0], ast.Return) and body[0].value is not None:
@@ -1265,9 +1276,11 @@ class Model:
                 # a parameter the helper never re-binds and that receives a plain name / constant / dotted name is substituted in
                 # the copy (`datatype.min` reads `self.min` again); the others are bound by an assignment in front
                 stored = {n.id for x in body for n in ast.walk(x) if isinstance(n, ast.Name) and isinstance(n.ctx, (ast.Store, ast.Del))}
+                # (an argument that mentions a name the helper binds itself - its loop variable `cbargs`, say - would be captured: bound instead)
                 subst = {prm: arg for prm, arg in binding.items()
                          if prm not in stored and (isinstance(arg, (ast.Name, ast.Constant)) or (isinstance(arg, ast.Attribute) and dotted(arg))
-                                                   or _pure_expr(arg))}
+                                                   or _pure_expr(arg))
+                         and not any(isinstance(x, ast.Name) and x.id in stored for x in ast.walk(arg))}
                 if subst:
                     class _Sub(ast.NodeTransformer):
                         def visit_Name(self, node):
